@@ -59,7 +59,7 @@ Definition accepted_core (a : attempt) (folder : str) (p : parsed) : Prop :=
     links (us u') = links_of (a_before a) k ++ [l] /\
     find_name (us u') (target_folder folder p) = Some m /\ lk_mbox l = mb_id m /\
     parts_of (p_shape p) = Some np /\
-    msg_of u' (lk_msg l) = Some (mkMsg (lk_msg l) (p_hdrs p) np) /\
+    msg_of u' (lk_msg l) = Some (stored_rec (lk_msg l) p np) /\
     (forall k', k' <> k -> get (a_after a) k' = get (a_before a) k').
 
 Definition att_ok (folder : str) (p : parsed) (a : attempt) : Prop :=
@@ -129,8 +129,9 @@ Proof.
       assert (Hpos : (0 <? np)%nat = true).
       { destruct (p_shape p); simpl in *; try discriminate; injection H6 as <-; reflexivity. }
       exists k, u', m, l. repeat split; auto.
-      * unfold reconstructs. rewrite H7. exact Hpos.
-      * exists (mkMsg (lk_msg l) (p_hdrs p) np). auto.
+      * unfold reconstructs. rewrite H7. destruct (stored_rec_intact (lk_msg l) p np) as (_ & A2 & _). rewrite A2. exact Hpos.
+      * exists (stored_rec (lk_msg l) p np). destruct (stored_rec_intact (lk_msg l) p np) as (A1 & A2 & A3).
+        rewrite A1, A2, A3. auto.
     + now apply Hrej.
   - intros _. split; [now rewrite map_length|]. split; [rewrite map_map; apply map_id|].
     split.
